@@ -266,6 +266,26 @@ def rec_handler_class():
     return _REC_CLASS
 
 
+def make_tracer(sim):
+    """Line-level pre-emption inside loki/lint/reporter.py and loki/lint/linter.py (task threads only):
+    at each executed line the simulator may take the baton away."""
+    def local(frame, event, arg):  # pylint: disable=unused-argument
+        if event == 'line' and sim.current is not sim.main and not sim.killing:
+            if sim.ch.choose('line', 5) == 0:
+                sim.run.probe('line_level_preemptions')
+                sim.run.event('line', sim.current.name, os.path.basename(frame.f_code.co_filename), frame.f_lineno)
+                sim.pause(0.0)
+        return local
+
+    def tracer(frame, event, arg):  # pylint: disable=unused-argument
+        if event == 'call':
+            fn = frame.f_code.co_filename
+            if fn.endswith(('lint/reporter.py', 'lint/linter.py')):
+                return local
+        return None
+    return tracer
+
+
 class TimeShim:
     """``time`` as seen by codetiming: perf_counter reads the virtual clock."""
 
@@ -310,10 +330,11 @@ class LintEngine(Engine):
              'pickling, by-value storage, every request a pre-emption point)',
              'concurrent.futures.as_completed -> simulated completion order', 'QueueListener -> no-op',
              'time.perf_counter (codetiming) -> virtual clock')
-    fault_kinds = ('fault_unparsable_file', 'fault_nonutf8_file')
+    fault_kinds = ('fault_unparsable_file', 'fault_nonutf8_file', 'fault_worker_death')
     probes = ('interleaved_between_items_and_append', 'completion_order_differs_from_submission',
               'failing_file_finished_first', 'failing_file_finished_last', 'sched_choice_points',
-              'fix_runs', 'overlapping_patterns', 'strict_mode_runs', 'spawned_workers')
+              'fix_runs', 'overlapping_patterns', 'strict_mode_runs', 'spawned_workers', 'line_level_preemptions',
+              'worker_death_surfaced_as_exception')
     nontrivial_rule = ('a run is non-trivial if at some scheduling step >=2 actors (main thread, worker tasks) were '
                        'runnable; distinct = distinct event-history digest (start/end/proxy-request/fs events)')
     hashseed_independent = True
@@ -404,6 +425,8 @@ class LintEngine(Engine):
             'rule_cfg': g.flip('rulecfg', 1, 4),
             'fs_preempt': g.flip('fspre', 3, 4),
             'strict_mode': g.flip('strict', 1, 4),
+            'die': {'task': g.choose('dietask', n), 'after': g.choose('dieafter', 4)} if g.flip('die', 1, 6) else None,
+            'line_trace': g.flip('linetrace', 1, 3 if big else 10),
         }
         return scen
 
@@ -434,7 +457,11 @@ class LintEngine(Engine):
                 c = self.clone(s)
                 c['max_workers'] = w
                 yield c
-        for key in ('junit', 'violations', 'line_hashes', 'rule_cfg', 'fix', 'fs_preempt', 'strict_mode'):
+        if s.get('die'):
+            c = self.clone(s)
+            c['die'] = None
+            yield c
+        for key in ('junit', 'violations', 'line_hashes', 'rule_cfg', 'fix', 'fs_preempt', 'strict_mode', 'line_trace'):
             if s[key]:
                 c = self.clone(s)
                 c[key] = False
@@ -543,7 +570,13 @@ class LintEngine(Engine):
             if scenario['fs_preempt']:
                 patches.set(self.L, 'shutil', ShutilShim())
             ser = self._lint_once(scenario, run, root, 'ser', 1)
+            if scenario.get('die'):
+                sim.die = (sim.ntasks + scenario['die']['task'], scenario['die']['after'])
+            if scenario.get('line_trace'):
+                sim.trace_hook = make_tracer(sim)
             par = self._lint_once(scenario, run, root, 'par', scenario['max_workers'])
+            sim.trace_hook = None
+            sim.die = None
         finally:
             try:
                 sim.shutdown()
@@ -579,6 +612,11 @@ class LintEngine(Engine):
             raise HarnessError('step cap hit in lint simulation')
         if isinstance(par['err'], pool.SimDeadlock):
             run.violate('hang', f'parallel lint never finishes: {par["err"]}')
+            return
+        if scenario.get('die') and run.stats.get('fault_worker_death') and par['err'] is not None and \
+                ser['err'] is None:
+            # relaxed oracle of the worker-death class: raising is fine (never a short count presented as success)
+            run.probe('worker_death_surfaced_as_exception')
             return
         if (ser['err'] is None) != (par['err'] is None):
             run.violate('outcome-differs', f'serial: {ser["err"]!r}; parallel: {par["err"]!r}')
